@@ -125,6 +125,41 @@ var c20ImplValues = []struct{ name, lit string }{
 	{"filled", "func() { c = make(chan int64, 2); c <- 7; return c }()"}, // a channel holding a value: `out <- v` forwards it
 }
 
+// typed nil values (a nil pointer, map, slice and function of a declared type; not a nil channel: ranging over it blocks for ever), made in the script; the model has
+// no typed containers, so these are judged by the provenance law on the implementation alone
+var c20TypedNils = []struct{ name, lit string }{
+	{"nilptr", "make(struct { A *int64 }).A"}, {"nilmap", "make(struct { A map[string]int64 }).A"}, {"nilslice", "make(struct { A []int64 }).A"},
+	{"nilfunc", "make(struct { A func(int64) int64 }).A"}, {"niliface", "make(struct { A interface }).A"},
+	{"typedzero", "make(struct { A int32 }).A"}, {"emptystruct", "make(struct { A struct { B int64 } }).A"},
+}
+
+func c20TypedNilPrograms(sample *Rand) []c20Prog {
+	var out []c20Prog
+	chains := c20Chains(2)
+	for _, t := range c20Templates {
+		if t.name == "loopcond" || t.name == "defer" || t.name == "call" || strings.HasPrefix(t.name, "spread") {
+			continue // a nil function / channel operand there blocks or is covered by the untyped nil
+		}
+		for _, v := range c20TypedNils {
+			base := "v = " + v.lit + "\n"
+			out = append(out, c20Prog{base + fmt.Sprintf(t.code, "v") + "\nr", []string{t.name, v.name, "var", "impl-only"}})
+			for _, ch := range chains {
+				if len(ch) > 1 && !sample.Chance(10, 100) {
+					continue
+				}
+				x := "v"
+				var names []string
+				for _, h := range ch {
+					x = c20Hops[h].wrap(x)
+					names = append(names, c20Hops[h].name)
+				}
+				out = append(out, c20Prog{base + fmt.Sprintf(t.code, x) + "\nr", []string{t.name, v.name, strings.Join(names, ">"), "impl-only"}})
+			}
+		}
+	}
+	return out
+}
+
 func c20ImplPrograms(sample *Rand) []c20Prog {
 	var out []c20Prog
 	chains := c20Chains(2)
@@ -217,5 +252,6 @@ func c20Programs(maxLen int, sample *Rand, limit int) []c20Prog {
 	}
 	out = append(out, c20MethodPrograms(sample)...)
 	out = append(out, c20ImplPrograms(sample)...)
+	out = append(out, c20TypedNilPrograms(sample)...)
 	return out
 }
